@@ -11,10 +11,11 @@
    `guarded s h`: along the history, at every step (1) sharing_visible: two record rows that name one location
    carry the same text or are fragment paths of one artifact text, (2) the step is not an ingest of a dataset
    the datastore already holds, (3) the location the step writes is inside the root, (4) every relative record
-   path names a location inside the root.  Each guard is NECESSARY on the code as it is: see the _refuted
-   theorems (all four reproduced on the real Butler; known findings). *)
+   path names a location inside the root.  Guards (1) and (2) are NECESSARY on the code as it is: see the
+   delete_refuted_* theorems (reproduced on the real Butler; known findings).  Since df0ecd0 the check that makes
+   (3) true for put / ingest is part of the code (unchecked_*_refused, writes_inside_root_partial). *)
 From Coq Require Import String Ascii List Bool NArith.
-From V Require Import Model.Template Gen.TemplateGen Model.Trash
+From V Require Import Model.Template Gen.TemplateGen Gen.TrashGen Model.Trash
                       Proofs.TrashProofs Proofs.TrashProofs2 Proofs.TrashProofs3.
 Import ListNotations.
 Open Scope string_scope.
@@ -75,25 +76,70 @@ Theorem trash_touches_no_file : forall s ids, fs (do_trash s ids) = fs s.
 Proof. exact do_trash_fs. Qed.
 Print Assumptions trash_touches_no_file.
 
-(* ---- containment of the file template -------------------------------------------------------------------- *)
+(* ---- containment ------------------------------------------------------------------------------------------------ *)
 
-(* partial: for names without "%" decoding is the identity, so the written location is exactly the normalised
-   template text with its extension.  (Missing for full strength: that text re-normalises to itself, i.e. its
-   first component is not ".." -- FileTemplate.format's check, finish_path, guarantees that for the text before
-   the extension is attached; the step from there is compared on every run, not proved.) *)
+(* the model's `step` is the code of the working tree: FileDatastore builds the location of a new artifact with
+   trusted_path=False at both sites (GEN_LOCATION_CHECKED is regenerated from fileDatastore.py / _location.py on every
+   run; reverting df0ecd0 makes it false and this theorem fail) *)
+Theorem model_is_the_code : step_v GEN_LOCATION_CHECKED = step.
+Proof. reflexivity. Qed.
+Print Assumptions model_is_the_code.
+
+(* For ALL run / data-ID / dataset-type names (any template text p whatsoever, any escapes): a text whose RESOLVED
+   (decoded, normalised) location is not under the root is refused before anything is written -- put ... *)
+Theorem unchecked_put_refused : forall s id p ext c,
+  inside (rel_loc (stage_a p)) = false -> step s (Put id (FOk p) ext c) = (s, Refused ValueErr).
+Proof. exact unchecked_put_refused_p. Qed.
+Print Assumptions unchecked_put_refused.
+
+(* ... and ingest (copy / move), whatever the source *)
+Theorem unchecked_ingest_refused : forall s m ids p ext src,
+  inside (rel_loc (stage_a p)) = false ->
+  fst (step s (Ingest m ids (FOk p) ext src)) = s /\ snd (step s (Ingest m ids (FOk p) ext src)) <> Done.
+Proof. exact unchecked_ingest_refused_p. Qed.
+Print Assumptions unchecked_ingest_refused.
+
+(* writes_inside_root, for ALL texts (no restriction on "%"): the location Location CHECKED is inside => the location
+   WRITTEN after the extension is attached is inside.  PARTIAL in exactly one respect: the premise `ext_bridge p ext`
+   (attaching the extension keeps every decoded component but the last and makes the last an ordinary name) is a
+   decidable fact about updatedExtension + unquote that is evaluated by vm_compute on every correspondence case
+   (chk_path) but not proved for all strings. *)
 Theorem writes_inside_root_partial : forall p ext,
+  is_abs (unq (stage_a p)) = false -> checked true p = true -> ext_bridge p ext = true ->
+  inside (target_loc p ext) = true.
+Proof. exact writes_inside_root_partial_p. Qed.
+Print Assumptions writes_inside_root_partial.
+
+(* the component-level content of it, at full strength: "outside" is absorbing, so every prefix of an inside path,
+   extended by one ordinary name, is inside *)
+Theorem prefix_of_inside_is_inside : forall a init lst,
+  inside (rev (fold_left (norm_step false) a [])) = true ->
+  is_prefix init a = true -> plain_comp lst = true ->
+  inside (rev (fold_left (norm_step false) (init ++ [lst])%list [])) = true.
+Proof. exact prefix_plain_inside. Qed.
+Print Assumptions prefix_of_inside_is_inside.
+
+(* names without "%": decoding is the identity, the location is the normalised text *)
+Theorem location_plain : forall p ext,
   no_pct p = true -> no_pct (set_ext p ext) = true -> is_abs (set_ext p ext) = false ->
   target_loc p ext = norm_comps (set_ext p ext).
 Proof. exact target_loc_plain_p. Qed.
-Print Assumptions writes_inside_root_partial.
+Print Assumptions location_plain.
 
-Theorem record_location_plain_partial : forall p,
+Theorem record_location_plain : forall p,
   no_pct p = true -> is_abs p = false -> no_pct (strip_frag p) = true -> is_abs (strip_frag p) = false ->
   loc p = norm_comps (strip_frag p).
 Proof. exact loc_plain_p. Qed.
-Print Assumptions record_location_plain_partial.
+Print Assumptions record_location_plain.
 
-(* the check added by cf1a6db is needed: without it "../outside" resolves outside the root *)
+(* the four spellings of the repaired defect are refused cleanly now *)
+Theorem escapes_refused_now : forall run, In run ["%2E%2E/sentinel"; "%2e%2e/sentinel"; "%252E%252E/sentinel"; "%2fsentinel"] ->
+  step st0 (Put 1 (fmt run) ".yaml" 9) = (st0, Refused ValueErr)
+  /\ step st0 (Ingest Copy [1%N] (fmt run) ".yaml" stage0) = (st0, Refused ValueErr).
+Proof. exact escapes_refused_now_p. Qed.
+Print Assumptions escapes_refused_now.
+
+(* the textual check added by cf1a6db is needed as well: without it "../outside" resolves outside *)
 Theorem containment_refuted_without_check :
   exists run raw, fmt run = FOutside
     /\ format_raw GEN_SAN_VALUE GEN_SAN_SLASH (fst GEN_DEFAULT) (fields_D "dtD" run "Cam" "0" "det0") "" = Some raw
@@ -101,27 +147,27 @@ Theorem containment_refuted_without_check :
 Proof. exact containment_refuted_without_check_p. Qed.
 Print Assumptions containment_refuted_without_check.
 
-(* ... and it is not sufficient: a run whose percent-escapes decode to ".." passes it (FINDING, reproduced) *)
-Theorem containment_refuted :
-  exists run p, fmt run = FOk p /\ inside (target_loc p ".yaml") = false.
-Proof. exact containment_refuted_p. Qed.
-Print Assumptions containment_refuted.
+(* before df0ecd0 (step_v false = textual check only): a percent-escaped ".." left the root (repaired finding) *)
+Theorem containment_refuted_without_fix :
+  exists run p, fmt run = FOk p /\ checked false p = true /\ inside (target_loc p ".yaml") = false.
+Proof. exact containment_refuted_without_fix_p. Qed.
+Print Assumptions containment_refuted_without_fix.
 
-Theorem outside_put_refuted :
+Theorem outside_put_refuted_without_fix :
   exists run s', fget (fs st0) sent0 = Some 2%N
-    /\ step st0 (Put 1 (fmt run) ".yaml" 9) = (s', Refused RuntimeErr)
+    /\ step_v false st0 (Put 1 (fmt run) ".yaml" 9) = (s', Refused RuntimeErr)
     /\ fget (fs s') sent0 = None /\ inside sent0 = false.
-Proof. exact outside_put_refuted_p. Qed.
-Print Assumptions outside_put_refuted.
+Proof. exact outside_put_refuted_without_fix_p. Qed.
+Print Assumptions outside_put_refuted_without_fix.
 
-Theorem outside_ingest_refuted :
+Theorem outside_ingest_refuted_without_fix :
   exists run s1,
-    step st0 (Ingest Copy [1%N] (fmt run) ".yaml" stage0) = (s1, Done)
+    step_v false st0 (Ingest Copy [1%N] (fmt run) ".yaml" stage0) = (s1, Done)
     /\ fget (fs st0) sent0 = Some 2%N /\ fget (fs s1) sent0 = Some 1%N
     /\ recs_inside s1 = false
     /\ fget (fs (fst (step s1 (Prune [1%N])))) sent0 = None.
-Proof. exact outside_ingest_refuted_p. Qed.
-Print Assumptions outside_ingest_refuted.
+Proof. exact outside_ingest_refuted_without_fix_p. Qed.
+Print Assumptions outside_ingest_refuted_without_fix.
 
 (* ---- the guards of MAIN 1 are necessary (FINDINGS, reproduced) ---------------------------------------------------- *)
 Theorem delete_refuted_alias :
@@ -168,6 +214,9 @@ Example demo_last_ref_deletes :
   /\ fget (fs s) sent0 = Some 2%N /\ fget (fs s) ["zips"; "ab"; "z.zip"] = Some 7%N
   /\ untouched_by_env st0 demo sent0 = true.
 Proof. vm_compute. repeat split; reflexivity. Qed.
+
+Example bridge_holds_on_escapes : ext_bridge "a%2fb/dtD/dtD_Cam_%2e%2e_x" ".yaml" = true /\ ext_bridge "r1/dtD/dtD_Cam_det0_r1" ".yaml" = true.
+Proof. vm_compute. split; reflexivity. Qed.
 
 Example plain_names_exist : no_pct "r1/dtD/dtD_Cam_det0_r1" = true /\ no_pct (set_ext "r1/dtD/dtD_Cam_det0_r1" ".yaml") = true.
 Proof. vm_compute. split; reflexivity. Qed.
